@@ -58,6 +58,9 @@ MstRunOK(r) ==
        ELSE \E st \in g.V : MstResultOK(g, st, r.total, r.edges)
 
 TriRunOK(r) == r.count = Triangles(Proj("", "", ""))
+\* after compact_adjacency (count_triangles_leapfrog intersects the frozen tier only): its documented count, and the
+\* procedure again through the frozen-tier read path
+LeapRunOK(r) == r.count = (IF r.kind = "leap" THEN LeapTriangles(Proj("", "", "")) ELSE Triangles(Proj("", "", "")))
 LccRunOK(r) ==
     LET g == Proj(r.label, r.type, "") IN
     /\ Len(r.nodes) = Cardinality(g.V) /\ SeqToSet(r.nodes) = g.V /\ Len(r.val) = Len(r.nodes)
@@ -110,6 +113,7 @@ T_AllPaths == IsEv("AllPaths") /\ Keep /\ AllRuns("AllPaths", AllPathsRunOK) /\ 
 T_Flow == IsEv("Flow") /\ Keep /\ AllRuns("Flow", FlowRunOK) /\ Same
 T_Mst == IsEv("Mst") /\ Keep /\ AllRuns("Mst", MstRunOK) /\ Same
 T_Tri == IsEv("Tri") /\ Keep /\ AllRuns("Tri", TriRunOK) /\ Same
+T_Leap == IsEv("Leap") /\ Keep /\ AllRuns("Leap", LeapRunOK) /\ Same
 T_Lcc == IsEv("Lcc") /\ Keep /\ AllRuns("Lcc", LccRunOK) /\ Same
 T_Cdlp == IsEv("Cdlp") /\ Keep /\ AllRuns("Cdlp", CdlpRunOK) /\ Same
 T_PageRank == IsEv("PageRank") /\ Keep /\ AllRuns("PageRank", PageRankRunOK) /\ Same
@@ -199,7 +203,7 @@ T_RepRand == /\ IsEv("RepRand") /\ Keep /\ (RepRandOK = TRUE)
              /\ (\A i \in DOMAIN Ev.runs : Ev.runs[i].algo = "tri" \/ (Len(Ev.runs[i].vals) = nn /\ \A v \in 1..nn : Ev.runs[i].vals[v] # <<>>)) = TRUE
              /\ Same
 
-TNext == T_Fail \/ T_Reset \/ T_AddNode \/ T_AddEdge \/ T_Comp \/ T_Path \/ T_AllPaths \/ T_Flow \/ T_Mst \/ T_Tri \/ T_Lcc
+TNext == T_Fail \/ T_Reset \/ T_AddNode \/ T_AddEdge \/ T_Comp \/ T_Path \/ T_AllPaths \/ T_Flow \/ T_Mst \/ T_Tri \/ T_Leap \/ T_Lcc
          \/ T_Cdlp \/ T_PageRank \/ T_Rep \/ T_RandGraph \/ T_CertPaths \/ T_CertWcc \/ T_CertScc \/ T_CertFlow \/ T_RepRand
 TSpec == TInit /\ [][TNext]_tvars
 =============================================================================
